@@ -33,6 +33,14 @@ CLAIMS['C06'] = dict(
          'Codes from {8 ESRI, 0, one invalid}. Hole filling (scipy) outside. Trusted: clang lowering, IR interpreter (validated vs native each run), z3.',
     technique=TECH_A, engine='llir', ref='DESIGN.md section 3, C06')
 
+CLAIMS['C11'] = dict(
+    text='With flow codes and the accumulated field both symbolic, z3 shows on every feasible path of c_accumulate that, on acyclic grids, every cell that '
+         'drains into another carries the sum of the field over itself and every cell draining through it, terminal cells carry the no-data value, the '
+         'input buffers are unchanged, and cyclic grids / reduced limits terminate.',
+    note='Bounds: grids <= 4 cells quick (1x1..2x2), <= 6 thorough; exact reals (rounding outside). A symbolic field distinguishes "add the source value" '
+         'from "add the visited value", which the suite\'s uniform fields cannot. Trusted: clang lowering, IR interpreter (validated vs native each run), z3.',
+    technique=TECH_A, engine='llir', ref='DESIGN.md section 3, C11')
+
 PENDING = 'check not built yet in this session (planned, see DESIGN.md section 3)'
 NOT_APPLICABLE = {
     'C13': 'persistence is carried by numpy tofile/fromfile, dtype objects, zipfile and float repr: no arithmetic core a solver can be given; '
